@@ -8,7 +8,7 @@ AREA = M.AREA
 LEAN_PROPS = "Litep2pVerif.Props.C05"
 THEOREMS = ["no_dup_outcome", "dial_ledger", "quiescent_dialable", "addr_total", "dial_address_parses_for_tcp",
             "dial_address_peers_agree", "protocol_dial_ledger", "protocol_dial_joins",
-            "protocol_notified_despite_full_channel", "protocol_dial_address_error_silent_witness"]
+            "protocol_notified_despite_full_channel"]
 MANIFEST = {
     "text": "Lean 4 theorems about an executable operational model of the connection manager with a ghost ledger of accepted "
             "dial attempts: no_dup_outcome, dial_ledger (outcome + inflight = 1 for every attempt in every reachable state), "
@@ -16,13 +16,15 @@ MANIFEST = {
             "Transport-trait contract (stated as an executable predicate) and all limit configurations. Findings (d) and (f) "
             "were repaired by two fix: commits and the theorems are proved for the repaired code. Protocol level "
             "(Model/Manager/Proto.lean): bounded event channel per installed protocol, the command channel, the DialPeer / "
-            "DialAddress arms of next() (incl. the DialFailure{peer, []} report of fix e94cf63), every site where protocols are "
+            "DialAddress arms of next() (incl. the DialFailure reports of the two fixes for failing queued commands), every site where protocols are "
             "told a dial failure (try_send, then a blocking send that suspends next()) or a connection; protocol_dial_ledger "
             "(every accepted request is queued or processed once; a processed one started an attempt whose single report "
             "reaches every protocol, or got exactly one failure report, or joined; delivery = taken out ++ still buffered), "
             "protocol_dial_joins, protocol_notified_despite_full_channel (a full channel delays, never loses), for every "
-            "number/order of protocols, every capacity and every interleaving; protocol_dial_address_error_silent_witness "
-            "keeps the open defect (queued DialAddress failure is only logged; known finding). Tie: seeded differential run "
+            "number/order of protocols, every capacity and every interleaving; a failed queued DialAddress gets exactly one "
+            "DialFailure{peer, [address]} per protocol and no processed request ends with a merely logged error (the former "
+            "finding 'queued DialAddress failure is silent' is repaired by a fix: commit; the handle only queues addresses "
+            "ending in /p2p). Tie: seeded differential run "
             "of the real TransportManager (scripted Transport, real protocol contexts with small channels, requests through "
             "the real TransportManagerHandle, connections reported by the real ProtocolSet) against the model, plus an "
             "outcome-ledger oracle per attempt and per protocol.",
@@ -78,8 +80,11 @@ PROTO_CORPUS = [
      "pdial 0 1", "pdial 1 2", "ev opened q1 ip4.11/tcp.1001/p2p.1", "ev opened q2 ip4.12/tcp.1002/p2p.2", "pfill 1",
      "ev established 1 q1 ip4.11/tcp.1001/p2p.1 dialer", "ev established 2 q2 ip4.12/tcp.1002/p2p.2 dialer",
      "pdrain 1", "accepted q1 ok", "pdrain 0", "pdrain 1"],
-    # known finding: a queued DialAddress that fails is only logged
+    # former finding (r), repaired: a queued DialAddress that fails was only logged; now DialFailure{peer, [address]}
     ["limits none 0", "protocols 1 cap=2", "pdialaddr 0 ip4.11/tcp.1001/p2p.1", "pdrain 0"],
+    # ... also through a full channel, and for an unsupported transport; /p2p not last is refused by the handle
+    ["limits none none", "protocols 2 cap=1", "pfill 1", "pdialaddr 0 ip4.11/tcp.1001/ws/p2p.1", "pdialaddr 1 ip4.11/tcp.1001/p2p.1/ws",
+     "pdrain 1", "pdrain 0", "pdrain 1"],
 ]
 
 
@@ -197,7 +202,7 @@ def oracle(case, out):
         # --- protocols
         if pr is not None and obs["ch"] is not None and len(obs["ch"]) == pr.n:
             protocol_ledger(pr, g, t, obs, prev, busy_before, nled, i, v)
-        if any(b["kind"] != "pdialaddr-silent" for b in bad):
+        if bad:
             break
     return bad
 
@@ -221,7 +226,7 @@ def protocol_ledger(pr, g, t, obs, prev, busy_before, nled, i, v):
         if t[0] == "pdial" and was[:1] in ("G", "O", "D"):
             pass                       # a dial of that peer is in progress: its outcome is told to every protocol
         else:
-            pr.queue.append({"kind": t[0], "peer": peer, "proto": j, "step": i})
+            pr.queue.append({"kind": t[0], "peer": peer, "proto": j, "step": i, "addr": t[2]})
     # outcomes the manager returned in this step (those of a step it was blocked in come first): every
     # protocol must have been told before
     for e in obs["events"]:
@@ -244,13 +249,15 @@ def protocol_ledger(pr, g, t, obs, prev, busy_before, nled, i, v):
             seen_busy[p] = ([mine["conn"]], seen_busy.get(p, ([], []))[1])
             continue
         owed_before, live_before = seen_busy.get(p, ([], []))
+        addrs = [] if r["kind"] == "pdial" else [r["addr"]]
         if owed_before or live_before:
-            continue                       # joined the dial in progress / the peer is connected
-        if r["kind"] == "pdial":
-            pr.exp.append(("df", p, None, [], i))    # the request failed: DialFailure{peer, []}
-        else:
-            v("pdialaddr-silent", f"protocol {r['proto']}: dial_address request for peer {p} accepted at step {r['step']}, "
-              f"the queued command failed and no protocol is told", i)
+            # joined the dial in progress / the peer is connected: concluded by that dial's or connection's
+            # report; the queued dial may also have failed on its own (e.g. connection limit checked first), then
+            # one failure report of its own is legitimate
+            pr.exp.append(("df", p, None, addrs, i, True))
+            continue
+        # the request failed: DialFailure{peer, []} / DialFailure{peer, [address]}
+        pr.exp.append(("df", p, None, addrs, i))
     pr.queue = pr.queue[done:]
     if obs["susp"] == "y":
         # blocked on a full channel: some protocols have the report, the others get it after the drain
@@ -265,33 +272,41 @@ def protocol_ledger(pr, g, t, obs, prev, busy_before, nled, i, v):
         while len(pr.buf[jj]) < obs["ch"][jj]:
             pr.buf[jj].append("?")
         told = len(pr.recv[jj]) + sum(1 for x in pr.buf[jj] if x != "fill")
-        if told < len(pr.exp):
-            kinds = [f"{k}:{p}" for k, p, _, _, _ in pr.exp]
-            v("protocol-silence", f"protocol {jj} was told {told} outcomes, {len(pr.exp)} were due ({kinds}): "
+        due = [e for e in pr.exp if len(e) == 5]
+        if told < len(due):
+            kinds = [f"{e[0]}:{e[1]}" for e in due]
+            v("protocol-silence", f"protocol {jj} was told {told} outcomes, {len(due)} were due ({kinds}): "
               f"a report was lost", i)
         elif told > len(pr.exp):
             v("protocol-duplicate", f"protocol {jj} was told {told} outcomes, only {len(pr.exp)} were due", i)
         elif not pr.buf[jj]:
-            # everything was taken out: the reports themselves, one by one
-            want = []
-            for k, p, c, addrs, _ in pr.exp:
-                want.append((k, p, c))
+            # everything was taken out: the reports themselves, one by one (optional ones may be absent)
             have = []
             for x in pr.recv[jj]:
                 f = x.split(":")
-                have.append((f[0], int(f[1]) if f[1].isdigit() else -1, f[2] if f[0] == "est" else None))
-            for (k, p, c), h in zip(want, have):
-                if k != h[0] or (p is not None and p != h[1]) or (k == "est" and c != h[2]):
-                    v("protocol-report", f"protocol {jj} was told {h} where {(k, p, c)} was due", i)
+                have.append((f[0], int(f[1]) if f[1].isdigit() else -1, f[2] if f[0] == "est" else None,
+                             None if f[0] == "est" else ([] if f[2] == "-" else f[2].split("|"))))
+            def fits(e, h):
+                k, p, c, addrs = e[:4]
+                return k == h[0] and (p is None or p == h[1]) and (k != "est" or c == h[2]) and \
+                    (k != "df" or addrs is None or addrs == h[3])
+
+            # reach[x] = set of numbers of received reports the first x outcomes can account for
+            reach = {0}
+            for e in pr.exp:
+                nxt = set()
+                for hi in reach:
+                    if hi < len(have) and fits(e, have[hi]):
+                        nxt.add(hi + 1)
+                    if len(e) == 6:
+                        nxt.add(hi)        # an optional report that was not sent
+                reach = nxt
+                if not reach:
                     break
-            for (k, p, c, addrs, _), x in zip(pr.exp, pr.recv[jj]):
-                if k == "df" and addrs is not None:
-                    f = x.split(":")
-                    got_addrs = [] if f[2] == "-" else f[2].split("|")
-                    if got_addrs != addrs:
-                        v("protocol-report", f"protocol {jj}: failure report names {got_addrs}, dialed {addrs}", i)
-                        break
+            if len(have) not in reach:
+                v("protocol-report", f"protocol {jj} was told {have}, the outcomes due are "
+                  f"{[e[:4] + (('optional',) if len(e) == 6 else ()) for e in pr.exp]}", i)
 
 
 def matches_known(k, v):
-    return k.get("signature", {}).get("kind") == v.get("kind") == "pdialaddr-silent"
+    return False
